@@ -125,5 +125,35 @@ func propTable() map[string]PropSpec {
 		Outside:     "non-UTC locations; normalisation inside time.Date (std); dates before 1900-03-01 (outside the property)",
 		Assumptions: []string{"time.Time stub: (Y,M,D,ns-of-day) tuple, UTC, arguments of time.Date already normalised (true for every input in the domain: 1<=M<=12, 1<=D<=days(Y,M), time of day < 24h)", "floating point is encoded exactly (SMT FloatingPoint theory, RNE, RTZ conversions) and decided by cvc5 on domain chunks", "reference civil<->MJD conversion uses 4-year cycles of 1461 days (valid 1900-03-01..2100-02-28)"},
 	}
+	c14 := func(level int64) []TaskSpec {
+		var kinds, loops, skips [][]int64
+		for i := int64(0); i < 25; i++ {
+			kinds = append(kinds, []int64{i, level})
+		}
+		loops = [][]int64{{0, 0, 0, 0}, {18, 0, 0, 1}, {24, 18, 0, 2}, {8, 23, 10, 3}, {16, 2, 18, 3}, {1, 13, 4, 3}}
+		if level > 0 {
+			loops = append(loops, [][]int64{{21, 18, 0, 2}, {6, 17, 15, 3}, {3, 12, 19, 3}, {20, 22, 11, 3}, {5, 7, 14, 3}, {9, 18, 24, 3}}...)
+		}
+		maxL := int64(6)
+		if level > 0 {
+			maxL = 10
+		}
+		for l := int64(0); l <= maxL; l++ {
+			skips = append(skips, []int64{l})
+		}
+		return []TaskSpec{
+			{Harness: "HarnessC14Desc", ArgSets: kinds, Reach: []string{"C14.desc.end"}},
+			{Harness: "HarnessC14Loop", ArgSets: loops, Reach: []string{"C14.loop.end"}},
+			{Harness: "HarnessC14Skip", ArgSets: skips, Reach: []string{"C14.skip.ok"}, MaxPaths: 200000},
+		}
+	}
+	t["C14"] = PropSpec{
+		ID: "C14", Quick: c14(0), Thorough: c14(1),
+		Bounds: map[string]string{
+			"quick":    "each of the 23 typed descriptors + unknown tag + user-defined tag: all scalar fields and flags symbolic, item counts 0..2, variable byte fields of length {0,1,3}, struct Length field arbitrary (8 bits); local-time-offset items use concrete times/offsets (C15 covers the time kernels); loops of 0..3 descriptors of mixed kinds (6 combinations); input side: first descriptor with any tag (2^8) and declared length 0..6 with arbitrary body, followed by a marker descriptor",
+			"thorough": "item counts 0..4, byte fields {0,1,2,3,8}, 12 loop combinations, declared length 0..10",
+		},
+		Outside: "variable parts longer than listed (up to 255); reserved bit values in descriptors are not compared (don't-care mask)",
+	}
 	return t
 }
